@@ -29,11 +29,23 @@ type Target struct {
 	// parameter of the translated function (random words, clocks).  It must occur exactly
 	// once and outside every loop.
 	Extern map[string]string `json:"extern,omitempty"`
+	// ExternFunc: Go callee (source text of the called function, e.g. "md5.Sum") -> "name : LeanType":
+	// a PURE function of the standard library becomes a function parameter of the translated function;
+	// every call `md5.Sum(e)` is `(name e)`, any number of times, also inside loops.
+	ExternFunc map[string]string `json:"extern_func,omitempty"`
+	// ExternImpl: for the EXECUTION path only (trans-diff): callee -> Lean term (an executable
+	// model of that standard-library function) passed for the extern function parameter by runTrans,
+	// while the Go wrapper calls the real function; LeanImports: modules the term needs (core-only ones).
+	ExternImpl  map[string]string `json:"extern_impl,omitempty"`
+	LeanImports []string          `json:"lean_imports,omitempty"`
 	// Theorem: the tie theorem in Props/<ID>.lean (drift exemption when it exists).
 	Theorem string `json:"theorem,omitempty"`
 	Model   string `json:"model,omitempty"` // the hand-written definition it is tied to (documentation)
 	// Inst: instantiation of type parameters for the execution path (trans-diff), e.g. {"T": "int"}.
 	Inst map[string]string `json:"inst,omitempty"`
+	// Globals: package-level fixed-size arrays that become explicit state of the translated function
+	// (a parameter; in-out when the function writes an element), e.g. ["decodeBase32Map"].
+	Globals []string `json:"globals,omitempty"`
 	// GoArgs: for the execution shim, a Go expression (over the extern parameter names) building a
 	// Go parameter that the extern option dropped, e.g. {"r": "rand.New(transrt.Source64(k0))"};
 	// GoImports: imports those expressions need.
@@ -79,7 +91,9 @@ func (t Target) goArg(name string) (string, bool) {
 }
 
 // LeanName is the name of the generated definition: Recv_Method for methods.
-func (t Target) LeanName() string { return strings.ReplaceAll(t.Name, ".", "_") }
+func (t Target) LeanName() string {
+	return strings.ReplaceAll(strings.ReplaceAll(t.Name, ".", "_"), "#", "_")
+}
 
 // TargetsFile maps a property id to its targets.
 type TargetsFile map[string][]Target
@@ -233,6 +247,13 @@ func (l *loader) load(dir string) (*pkgInfo, error) {
 				k := fd.Name.Name
 				if fd.Recv != nil && len(fd.Recv.List) > 0 {
 					k = recvName(fd.Recv.List[0].Type) + "." + k
+				}
+				if k == "init" { // several per package: "init#0", "init#1", … in file order
+					n := 0
+					for p.funcs[fmt.Sprintf("init#%d", n)] != nil {
+						n++
+					}
+					k = fmt.Sprintf("init#%d", n)
 				}
 				p.funcs[k] = fd
 			}
